@@ -115,10 +115,32 @@ def _reach(ts, nodes):
     return reach
 
 
+_SEARCHED = []
+
+
 def search_cases(rng, tier):
     """search phase only: the ordinary families plus deep dependency chains (depth > the interpreter recursion
     limit), cyclic and acyclic - too slow for the Coq evaluator (the algorithm is cubic on a chain), oracle only"""
     cases = gen_cases(rng, "quick")
+    if not _SEARCHED:
+        # once per run of the search phase: every digraph on 4 nodes through find_cycles and sort (the thorough tier
+        # compares these with the model; here the implementation is judged by the direct oracle only)
+        _SEARCHED.append(1)
+        for g in _graphs(4):
+            ge = [list(e) for e in g]
+            cases.append({"in": [2, ge, []], "kind": "cycles4-search", "model": False})
+            cases.append({"in": [0, ge, [0, 1, 2, 3]], "kind": "sort4-search", "model": False})
+    for _ in range(3000):
+        # 5-7 node graphs, denser than the main family, with repeated pairs
+        n = rng.randint(5, 7)
+        dens = rng.choice([0.15, 0.25, 0.35])
+        ts = [[a, b] for a in range(n) for b in range(n) if a != b and rng.random() < dens]
+        ts += [rng.choice(ts) for _ in range(rng.randint(0, 3)) if ts]
+        rng.shuffle(ts)
+        items = list(range(n))
+        rng.shuffle(items)
+        op = rng.choice([0, 1, 2])
+        cases.append({"in": [op, ts, items if op != 2 else []], "kind": "random-dense-search", "model": False})
     for n, cyc in ((1100, True), (1300, False), (1100, True)):
         ts = [[i, i + 1] for i in range(n - 1)] + ([[n - 1, 0]] if cyc else [])
         items = list(range(n))
